@@ -5,6 +5,7 @@ Line protocol of the C13 model.
 
   features <S> <v> [<pk>] FacadeFeatures.get_feature for every feature, fresh state; `pk` = Companion's power state is known; `v` = AirPlay
                         advertises video                                  → Name=State,…
+  allfeatures <S> <v> <pk> <b>  FacadeFeatures.all_features(include_unsupported=b): the entries it returns
   proto <P> <c0> <c1>   protocol P's get_feature for every feature with its conditions c0 c1
   backed <S>            per feature: 1 iff some member it stands for is routed to an implementation
   map <S>               per feature: protocol FacadeFeatures consults (`-` = none)
@@ -26,6 +27,11 @@ def handle (_ : Unit) (ws : List String) : Unit × String :=
     match parseSet? s, parseBit? v, parseBit? pk with
     | some S, some v, some pk => ((), csv (Feature.all.map fun f => s!"{f.name}={(facadeFeature S (freshEnv v pk) f).name}"))
     | _, _, _ => ((), "bad-op")
+  | ["allfeatures", s, v, pk, b] =>
+    match parseSet? s, parseBit? v, parseBit? pk, parseBit? b with
+    | some S, some v, some pk, some b =>
+      ((), csv ((allFeatures S (freshEnv v pk) b).map fun (f, st) => s!"{f.name}={st.name}"))
+    | _, _, _, _ => ((), "bad-op")
   | ["proto", p, c0, c1] =>
     match parseProto? p, parseBit? c0, parseBit? c1 with
     | some p, some c0, some c1 => ((), csv (Feature.all.map fun f => s!"{f.name}={(protoFeature p c0 c1 f).name}"))
